@@ -97,7 +97,9 @@ func completionValues(n *ref.Node, out map[string]interface{}) {
 		out[n.Name] = 0
 	case ref.A:
 		if n.AVar != nil {
-			out[n.AVar.Name] = strings.Repeat("a", n.AVar.Min)
+			if n.AVar.Min <= 1<<20 {
+				out[n.AVar.Name] = strings.Repeat("a", n.AVar.Min)
+			}
 		}
 	default:
 		for _, e := range n.Elems {
